@@ -1,18 +1,18 @@
 #!/bin/bash
-# Runs every seeded change (under /verif/seeded or /tmp/seed/out) against all checks and prints which properties alarm.
-SRCROOT=${1:-/verif/seeded}
+# Applies every behaviour-preserving edit under /verif/benign to /repo in turn, runs all checks and restores the
+# tree. No check may raise an alarm; exits 1 and prints the id if one does.
+SRCROOT=${1:-/verif/benign}
 cd /repo
 [ -n "$(git status --porcelain)" ] && { echo "repo dirty"; exit 2; }
 mkdir -p /tmp/kmseed-verif; cp /verif/known_findings.json /tmp/kmseed-verif/
-MISS=0
-for d in $(ls $SRCROOT | grep -E "^C[0-9]+-B?[0-9]+$"); do
-  P=$SRCROOT/$d/patch.diff; [ -f $SRCROOT/$d/patch.rebased.diff ] && P=$SRCROOT/$d/patch.rebased.diff
-  if ! git apply $P 2>/dev/null; then echo "$d APPLY-FAILED"; git reset -q --hard HEAD; continue; fi
+BAD=0
+for d in $(ls $SRCROOT | grep -E "^C[0-9]+-G[0-9]+$"); do
+  if ! git apply $SRCROOT/$d/patch.diff 2>/dev/null; then echo "$d APPLY-FAILED"; git reset -q --hard HEAD; continue; fi
   /verif/bin/kmcheck -prop all -verif /tmp/kmseed-verif > /tmp/kmseed-verif/out.txt 2>&1
   hits=$(grep -oE "^VIOLATION property=C[0-9]+" /tmp/kmseed-verif/out.txt | sort -u | sed 's/VIOLATION property=//' | paste -sd, )
   rules=$(grep -oE "^(FAIL |.*ANCHOR-LOST rule=)R-C[0-9]+-[0-9]+" /tmp/kmseed-verif/out.txt | grep -oE "R-C[0-9]+-[0-9]+" | sort -u | paste -sd, )
-  echo "$d detected_by=${hits:-NONE} rules=${rules:-none}"
-  case ",$hits," in *",${d%%-*},"*) ;; *) echo "  MISSED-BY-OWN-PROPERTY $d"; MISS=1;; esac
+  echo "$d alarms=${hits:-NONE} rules=${rules:-none}"
+  [ -n "$hits" ] && BAD=1
   git reset -q --hard HEAD; git clean -fdq -- . 2>/dev/null
 done
-exit $MISS
+exit $BAD
